@@ -2,8 +2,8 @@ from engine.core import Job
 META = dict(
     level="proof",
     claim="Symbol emission mechanisms on the real code: emit_data emits for one arbitrary global exactly the directives the linkage rules prescribe (nothing for non-definitions; .local/.globl by linkage; .comm for tentative definitions under -fcommon; .data/.tdata vs .bss/.tbss; size, alignment incl. the 16-byte array rule; the image byte for byte with label+addend relocations); gen_addr(ND_VAR) emits the address form of the configuration table for every combination of local/VLA/TLS/-fPIC/function/definition; mark_live makes a function and every resolvable referenced function live and never revokes liveness (recursive contract; the closure over the whole reference graph is the induction).",
-    note="Trusted: CBMC; the meaning of relocations/sections is the assembler's and linker's. Assumed: find_func is a ghost map. Not covered: function()/global_variable() linkage attribute parsing, scan_globals tentative merging, emit_text gate, the root loop in parse(), driver options, multi-unit link behaviour.",
-    functions=["codegen.c:emit_data", "codegen.c:gen_addr", "parse.c:mark_live"],
+    note="Trusted: CBMC; the meaning of relocations/sections is the assembler's and linker's. Assumed: find_func is a ghost map. primary() records a reference (inside a function) or a root (file scope) for EVERY function designator whatever its flags so far; function() on a first prototype sets internal linkage iff static or (inline and not extern) and makes every function except a static inline one a root. Not covered: function redeclarations and definitions (bodies), global_variable() attribute parsing, scan_globals tentative merging, emit_text gate, the root loop in parse(), driver options, multi-unit link behaviour.",
+    functions=["parse.c:primary", "parse.c:function", "parse.c:find_func", "parse.c:new_gvar", "codegen.c:emit_data", "codegen.c:gen_addr", "parse.c:mark_live"],
     trusted_base=["CBMC 6.11", "spec tables in harness/C15"],
     assumptions=["find_func(name) is a pure map (contract)", "one arbitrary list element stands for every element of the globals list (the loop body is element-wise)"],
 )
@@ -14,6 +14,10 @@ def jobs(tier):
             sample="emit_data on one global with symbolic flags, size <= 18, symbolic image and relocation"),
         Job(name="gen_addr-var", src="addr.c", group="C15.7 address formation", mode="plain", cut=CUT, units=["type.c"], unwind=6, unwindset=["strcmp.0:40"], timeout=300, replay=None,
             sample="gen_addr(ND_VAR) over every configuration"),
+        Job(name="refs-primary", src="refs.c", group="C15.1 reference recording", defs={"FN": "0"}, mode="plain", cut=CUT, units=["type.c", "strings.c"], unwind=12, unwindset=["strlen.0:48", "memcmp.0:48", "strcmp.0:48"], timeout=300, replay=None,
+            sample="primary() on a function designator with symbolic linkage flags, inside a function and at file scope"),
+        Job(name="function-attrs", src="refs.c", group="C15.2 linkage attributes", defs={"FN": "1"}, mode="plain", cut=CUT, units=["type.c", "strings.c"], unwind=12, unwindset=["strlen.0:48", "memcmp.0:48", "strcmp.0:48"], timeout=300, replay=None,
+            redirect={"declarator": "stub_declarator"}, sample="function() on a first prototype with every static/inline/extern combination"),
         Job(name="mark_live", src="marklive.c", group="C15.3 liveness closure", mode="dfcc", enforce="mark_live", rec=True, replace=["find_func"], cut=CUT, units=["type.c"], timeout=300, unwind=4, replay=None,
             sample="mark_live on a function with 0..2 references into a pool of three functions"),
     ]
